@@ -306,6 +306,7 @@ class Explorer:
         self.queries = []          # (label, verdict, seconds)
         self.paths = []
         self.level = 0
+        self.nocheck = False
 
     def check(self, *assumptions):
         t0 = time.time()
@@ -315,6 +316,10 @@ class Explorer:
         self.n_checks += 1
         if r == z3.unknown:
             self.n_unknown += 1
+        if dt > 3 and os.environ.get('VERIF_SLOW'):
+            print('SLOW CHECK %.1fs %s: %s' % (dt, r, str(assumptions)[:600]), flush=True)
+            if os.environ.get('VERIF_SLOW') == 'dump':
+                open('/var/tmp/slow_%d.smt2' % self.n_checks, 'w').write(self.solver.to_smt2())
         return r
 
     def explore(self, harness, on_path=None, fuel=200000, pending=None, split_at=None, budget=None):
@@ -378,11 +383,12 @@ class Ctx:
         self.data = {}
         self.violations = []
         self.notes = []
+        self.name_prefix = ''
 
     # -- variables
     def fresh(self, name, sort):
         self.nfresh += 1
-        return z3.Const('%s!%d' % (name, self.nfresh), sort)
+        return z3.Const('%s%s!%d' % (self.name_prefix, name, self.nfresh), sort)
 
     def fresh_bv(self, name, w=64):
         return self.fresh(name, z3.BitVecSort(w))
@@ -431,17 +437,27 @@ class Ctx:
             d = self.prefix[k]
             self.decisions.append(d)
             if d in (0, 1):
-                self.add(cond if d == 1 else z3.Not(cond))
+                c = cond if d == 1 else z3.Not(cond)
+                self.add(c)
+                tr = self.data.get('trace')
+                if tr is not None:
+                    tr.append(('br', cond, d == 1))
             return bool(d & 1)
         # frontier
-        rt = self.ex.check(cond)
-        rf = self.ex.check(z3.Not(cond))
-        t_ok = rt != z3.unsat
-        f_ok = rf != z3.unsat
+        if self.ex.nocheck:
+            t_ok = f_ok = True
+        else:
+            rt = self.ex.check(cond)
+            rf = self.ex.check(z3.Not(cond))
+            t_ok = rt != z3.unsat
+            f_ok = rf != z3.unsat
         if t_ok and f_ok:
             self.alternatives.append(self.decisions + [0])
             self.decisions.append(1)
             self.add(cond)
+            tr = self.data.get('trace')
+            if tr is not None:
+                tr.append(('br', cond, True))
             return True
         if t_ok:
             self.decisions.append(3)
@@ -919,6 +935,10 @@ class Interp:
         if a.size() != b.size() and op not in ('Shl', 'Shr', 'ShlUnchecked', 'ShrUnchecked'):
             raise Unsupported('binop width mismatch')
         S = z3.simplify
+        if op in ('Eq', 'Ne') and conc(b) == 0 and a.decl().kind() in (z3.Z3_OP_BUDIV, z3.Z3_OP_BUDIV_I) and conc(a.arg(1)) not in (None, 0):
+            # (x / c) == 0  <=>  x < c      (keeps dividers out of the formula)
+            r = z3.ULT(a.arg(0), a.arg(1))
+            return S(r) if op == 'Eq' else S(z3.Not(r))
         if op == 'Eq': return S(a == b)
         if op == 'Ne': return S(a != b)
         if op == 'Lt': return S(a < b) if signed else S(z3.ULT(a, b))
